@@ -554,7 +554,10 @@ impl Subscription {
                 }
 
                 for event in commit {
-                    debug_assert!(watermark.can_read(event.partition_sequence));
+                    // the watermark can lie inside a transaction (it advances per event)
+                    if !watermark.can_read(event.partition_sequence) {
+                        break 'iter;
+                    }
 
                     let sequence = event.partition_sequence;
                     self.send_record(event).await?;
@@ -627,7 +630,7 @@ impl Subscription {
                             commits.iter().map(|commit| commit.len() as u64).sum(),
                         );
 
-                        for commit in commits {
+                        'commits: for commit in commits {
                             let Some(first_partition_sequence) = commit.first_partition_sequence()
                             else {
                                 continue;
@@ -647,7 +650,12 @@ impl Subscription {
                             }
 
                             for event in commit {
-                                debug_assert!(watermark.can_read(event.partition_sequence));
+                                // the watermark can lie inside a transaction (it advances per event)
+                                if !watermark.can_read(event.partition_sequence) {
+                                    let partition_id = *partition_id;
+                                    partition_iters.remove(&partition_id);
+                                    break 'commits;
+                                }
 
                                 let sequence = event.partition_sequence;
                                 self.send_record(event).await?;
@@ -731,7 +739,10 @@ impl Subscription {
                 }
 
                 for event in commit {
-                    debug_assert!(watermark.can_read(event.partition_sequence));
+                    // the watermark can lie inside a transaction (it advances per event)
+                    if !watermark.can_read(event.partition_sequence) {
+                        break 'iter;
+                    }
 
                     let version = event.stream_version;
                     self.send_record(event).await?;
